@@ -13,8 +13,9 @@
    in closed form; [ply_writer_emits] and [ply_face_records_emitted] show these ARE the writer's vertex block and face
    records) under the decidable side condition [readers_ok]: ply.ReadMesh builds on the written property list exactly
    the readers laid out on the groups.  [ply_readers_default] discharges it for every subset of ply.Write's own
-   table (256 cases by computation); for user-named attributes and custom tables it is evaluated per generated case
-   by Check/C04.v ([corr_one]: read_mesh file = implementation result = expected o m).  NOT proved: that
+   table (256 cases by computation), [ply_readers_default_user] for that table followed by user-named scalars; for
+   custom tables (and the per-vertex s/t TexCoord of a point cloud, which the reader places before the splat groups)
+   it is evaluated per generated case by Check/C04.v ([corr_one]: read_mesh file = implementation result = expected o m).  NOT proved: that
    [write o f m] as a whole equals the closed-form file and that [expected o m] equals the right-hand sides (both are
    checked on every case, and on [ply_example] below); hence the block theorems keep the suffix _partial and the
    single full statement stays in this comment:
@@ -231,6 +232,15 @@ Theorem ply_readers_default : forall bin m (sel : pw -> bool),
   readers_ok bin (map (group_of m) (filter sel default_writers)).
 Proof. exact readers_ok_default. Qed.
 Print Assumptions ply_readers_default.
+
+(* ... and for ply.Write's table followed by any number of user-named scalar properties (what unspecified
+   attributes become on the reading side) with pairwise distinct names outside the reader's reserved names:
+   fresh names are claimed by no recognised group and each gets its own scalar reader at the right offset *)
+Theorem ply_readers_default_user : forall bin m (sel : pw -> bool) tail,
+  Forall scalar_group tail -> NoDup (map rg_attr tail) -> Forall (fun g => ~ In (rg_attr g) reserved_names) tail ->
+  readers_ok bin (map (group_of m) (filter sel default_writers) ++ tail).
+Proof. exact readers_ok_default_user. Qed.
+Print Assumptions ply_readers_default_user.
 
 (* ---- the known finding, as a statement about the reader model: an 8-bit scalar comes back raw from ASCII ---- *)
 Theorem ascii_uchar_scalar_refuted :
